@@ -361,7 +361,7 @@ def execute(case, script=None):
                     ctx.probe('aborts_delivered')
                 # clean run on the same objects
                 algo2 = S.make_algo(sc, S.Env()) if algo is None else algo
-                out, _, _ = _run(sc, ctx, sched, algo=algo2 if S.reusable(comp) else None, problem=problem)
+                out, _, _ = _run(sc, ctx, sched, algo=algo2 if (S.reusable(comp) or comp == 'semimdp') else None, problem=problem)
                 compare(out, 'rerun-after-abort')
     except (Violation, Inconclusive) as e:
         raise ctx.attach_partial(e)
